@@ -9,8 +9,11 @@
    exact value (residual below the derived allowance 64 eps K W; rationalised equality for small
    denominators); re-balanced rows read off with one-hot vectors must satisfy (BJ)(BJ)^T = sigma^2 I;
    zero matrices of every shape give the zero vector.
+   Wide presentations (family "wide": every column of a base instance repeated 4^k times, scaled 2^-k,
+   n up to 1.3e6 columns, float64 and - where the model proves all n-term reductions exact - float32) of
+   one S per spectrum and of integer-norm instances: code(Widen(J)) must be Widen(exact value).
 3. C->S (predicate level): the defining equalities are evaluated in float64 on random integer
-   matrices; TraceImpartial.tla decides admissibility exactly and judges the logged residuals.
+   matrices, narrow and widened; TraceImpartial.tla decides admissibility exactly and judges the residuals.
 """
 
 from __future__ import annotations
@@ -47,6 +50,8 @@ def scn_name(scn: dict) -> str:
     if scn["fam"] == "aligned":
         c = scn["cases"][0]
         return f"aligned:S={scn['S']}:J={c['Jnum']}/{c['Jden']}"
+    if scn["fam"] == "wide":
+        return f"wide:4^{scn['k']}x:" + scn_name(scn["base"])
     return f"zero:{scn['m']}x{scn['n']}"
 
 
@@ -80,10 +85,12 @@ def validate_episodes(ctx: Ctx, episodes: list[dict]) -> dict:
         ctx.count("reject:" + rj["clause"])
         if not _room(ctx, "trace:" + e["agg"], rj["clause"]):
             continue
-        key = f"trace:{e['agg']}:{rj['clause']}:{e['J']}:u={e['u']}:2^{e['e']}"
-        ctx.violation(key, f"{e['agg']}(u={'default' if e['default'] else e['u']}) on 2^{e['e']} x {e['J']}: "
+        wide = f":wide4^{e['k']}" if e["k"] else ""
+        key = f"trace:{e['agg']}:{rj['clause']}:{e['J']}:u={e['u']}:2^{e['e']}{wide}"
+        ctx.violation(key, f"{e['agg']}(u={'default' if e['default'] else e['u']}) on 2^{e['e']} x {e['J']}"
+                           f"{' (every column repeated 4^%d times, scaled 2^-%d)' % (e['k'], e['k']) if e['k'] else ''}: "
                            f"clause '{rj['clause']}' – residuals (units of eps) {e['obs']}, allowed {rj['allowed']}",
-                      {"kind": "episode", "ep": e["ep"], "seed": ctx.seed})
+                      {"kind": "episode", "ep": e["ep"], "seed": ctx.seed, "k": e["k"]})
     ctx.traces += summ["accepted"] + summ["rejected"]
     ctx.extra["trace_summary"] = summ
     return summ
@@ -96,7 +103,10 @@ def run(ctx: Ctx, replay: str | None) -> None:
                 "are enumerated completely by TLC within their bounds; non-trivial = a full-row-rank instance with "
                 "m >= 2 rows that are not mutually orthogonal (the impartial weights differ from the plain sum)")
     ctx.assumptions += [
-        "float64 only (DESIGN.md 8); integer matrices scaled by powers of two are exact",
+        "float64 only on the narrow instances (DESIGN.md 8); integer matrices scaled by powers of two are exact",
+        "wide instances (every column repeated 4^k times, scaled 2^-k): float64, and float32 where the model proves "
+        "that all n-term reductions (Gramian, row norms) are exact in 24 bits whatever the summation order; "
+        "ConFIG on wide instances: float64 only, allowance x n (pseudo-inverse of the inexact m x n unit-row matrix)",
         "condition bound KMax = 1024 on cond(J J^T) decided exactly by tr^m <= KMax det (conservative)",
         "outside the exact families (random integer matrices) the defining equalities are predicate level: "
         "evaluated in float64 by the harness, judged by TLC against 64 x the exact condition bound",
@@ -109,7 +119,7 @@ def run(ctx: Ctx, replay: str | None) -> None:
             report(ctx, p["scenario"], lib.run_scenario((p["scenario"], p["exps"])), p["exps"])
         else:
             ctx.seed = p["seed"]
-            validate_episodes(ctx, [lib.random_episode((p["ep"], p["seed"]))])
+            validate_episodes(ctx, [lib.random_episode((p["ep"], p["seed"], p.get("k", 0)))])
         return
 
     cfg = "MC_Impartial_quick.cfg" if ctx.tier == "quick" else "MC_Impartial_thorough.cfg"
@@ -117,11 +127,11 @@ def run(ctx: Ctx, replay: str | None) -> None:
     ctx.add_tlc(res)
     if res.violated:
         raise MachineryError(f"Impartial: the specification functions violate {res.violated}\n{res.cex[:1500]}")
-    for act in ("PickPyth", "PickAligned", "PickZero"):
+    for act in ("PickPyth", "PickAligned", "PickZero", "PickWide"):
         if not res.coverage.get(act):
             raise MachineryError(f"vacuous model check: action {act} never taken")
     scenarios = res.prints.get("SCN", [])
-    fams = {f: [s for s in scenarios if s["fam"] == f] for f in ("pyth", "aligned", "zero")}
+    fams = {f: [s for s in scenarios if s["fam"] == f] for f in ("pyth", "aligned", "zero", "wide")}
     if not all(fams.values()):
         raise MachineryError(f"a family is empty: { {f: len(v) for f, v in fams.items()} }")
     ctx.exhaustive = True
@@ -133,9 +143,34 @@ def run(ctx: Ctx, replay: str | None) -> None:
         raise MachineryError("integer-norm family lacks admissible instances / instances whose un-normalised "
                              "IMTL-G weights have a negative sum")
 
-    scenarios.sort(key=scn_name)
+    wide = sorted(fams["wide"], key=scn_name)
+    ctx.extra["wide_instances"] = {
+        "aligned": sum(1 for s in wide if s["kind"] == "aligned"), "pyth": sum(1 for s in wide if s["kind"] == "pyth"),
+        "columns": sorted({s["n"] for s in wide}),
+        "float32_reductions_exact": sum(1 for s in wide if s["exact32"])}
+    if not any(s["kind"] == "aligned" and s["exact32"] for s in wide) or not any(s["kind"] == "pyth" for s in wide) \
+            or max(s["n"] for s in wide) < 2 ** 20:
+        raise MachineryError(f"wide family too thin: {ctx.extra['wide_instances']}")
+    scenarios = sorted((s for s in scenarios if s["fam"] != "wide"), key=scn_name)
     results = pmap(lib.run_scenario, [(s, exps) for s in scenarios], chunksize=8)
+    wexps = lib.WIDE_EXPS[ctx.tier]
+    # one task per wide instance (tens of MB each), interleaved so that the workers finish together
+    wresults = pmap(lib.run_scenario, [(s, wexps) for s in wide], chunksize=1) if len(wide) >= 64 else \
+        [lib.run_scenario((s, wexps)) for s in wide]
     worst = 0.0
+    worst_wide = 0.0
+    for scn, r in zip(wide, wresults):
+        ctx.evaluations += r["evals"]
+        ctx.traces += 1
+        worst_wide = max(worst_wide, r["worst"])
+        for sk in r["skipped"]:
+            ctx.count("skipped:" + sk)
+        report(ctx, scn, r, wexps)
+        b = scn["base"]
+        if (scn["kind"] == "pyth" and b["admit"]) or \
+                (scn["kind"] == "aligned" and any(b["S"][i][j] for i in range(b["m"]) for j in range(b["m"]) if i != j)):
+            ctx.nontrivial(scn_name(scn))
+    ctx.extra["worst_residual_over_allowance_wide"] = worst_wide
     for scn, r in zip(scenarios, results):
         ctx.evaluations += r["evals"]
         ctx.traces += 1
@@ -151,12 +186,18 @@ def run(ctx: Ctx, replay: str | None) -> None:
     ctx.extra["worst_residual_over_allowance"] = worst
     for s in (fams["pyth"][len(fams["pyth"]) // 2], fams["aligned"][len(fams["aligned"]) // 2], fams["zero"][0]):
         ctx.sample({"scenario": {k: v for k, v in s.items() if k not in ("config",)}})
+    ws = next(s for s in wide if s["kind"] == "aligned" and s["exact32"] and s["m"] == 3)
+    ctx.sample({"scenario": {**{k: v for k, v in ws.items() if k != "base"}, "base_S": ws["base"]["S"]}})
 
     n_ep = 600 if ctx.tier == "quick" else 6000
     episodes = pmap(lib.random_episode, [(i + 1, ctx.seed) for i in range(n_ep)], chunksize=32)
+    # wide presentations (4^k copies of every column, k = 8, 9) of further random matrices
+    n_wide = 64 if ctx.tier == "quick" else 256
+    episodes += pmap(lib.random_episode, [(n_ep + i + 1, ctx.seed, 8 + i % 2) for i in range(n_wide)], chunksize=1)
     ctx.evaluations += len(episodes)
     summ = validate_episodes(ctx, episodes)
-    if summ["accepted"] < n_ep // 10:
-        raise MachineryError(f"vacuous trace validation: only {summ['accepted']} admissible episodes of {n_ep}")
+    if summ["accepted"] < n_ep // 10 or summ["wide_admissible"] < n_wide // 10:
+        raise MachineryError(f"vacuous trace validation: only {summ['accepted']} admissible episodes of {n_ep}, "
+                             f"{summ['wide_admissible']} wide ones of {n_wide}")
     for e in episodes[:2]:
         ctx.sample({"episode": e})
